@@ -16,11 +16,13 @@ Definition nontrivial_case (inp : list Z) : bool := nontrivial_numa (decode_ncas
 
 (* known-finding shapes:
    1  an allocation is lost (clause 1) in a case whose replay delivers objects before the CPU topology
-   2  only the ExclusivePolicy marks differ (clauses 7/8) and objects sharing a cpu ask for different policies *)
+   2  only the ExclusivePolicy marks differ (clauses 7/8) and objects sharing a cpu ask for different policies
+   3  only the ExclusivePolicy marks differ (clause 7) and a Reservation asks for an exclusive policy *)
 Definition finding_sig (inp obs : list Z) : Z :=
   let c := decode_ncase inp in
   let code := prop_case inp obs in
   if (code =? 1) && negb (c_topo_first c) then 1
+  else if (code =? 7) && negb (rsv_no_excl (c_descs c)) then 3
   else if ((code =? 7) || (code =? 8)) && negb (policies_agree (c_descs c)) then 2
   else 0.
 
